@@ -64,6 +64,7 @@ class MySQLQueryBuilder(QueryBuilder):
         ctx = ctx or MySQLQuery.SQL_CONTEXT
         querystring = super().get_sql(ctx)
         if querystring and self._update_table:
+            ctx = ctx.copy(subquery=False, with_alias=False, subcriterion=False)
             if self._orderbys:
                 querystring += self._orderby_sql(ctx)
             if self._limit:
